@@ -230,9 +230,14 @@ class DuckStub:
             stmts = _orig_parse(sql, read="duckdb")
         except sqlglot.errors.ParseError as e:
             raise duckdb.ParserException(f"Parser Error: {e}") from None
-        for st in stmts:
-            if st is None:
-                continue
+        real = [st for st in stmts if st is not None]
+        if len(real) == 1:
+            # K1: a prepared statement must be given exactly as many values as it has placeholders
+            need = len(list(real[0].find_all(exp.Placeholder))) + len(list(real[0].find_all(exp.Parameter)))
+            given = len(params) if isinstance(params, (list, tuple)) else 0
+            if need != given:
+                raise duckdb.InvalidInputException(f"Invalid Input Error: Prepared statement needs {need} parameters, {given} given")
+        for st in real:
             self._apply(st, sql)
 
     def _resolve(self, t: exp.Table, for_create: bool = False):
@@ -702,6 +707,19 @@ def validate_engine() -> list:
     if (real.execute(q).fetchone() is not None) != (stub.execute(q).fetchone() is not None):
         ok2, d2 = False, q
     out.append(("K2 information_schema.schemata existence answers: stub == real DuckDB", ok2, d2))
+    # placeholder / parameter count
+    ok3, d3 = True, ""
+    for q, prm in (("select ?", (1,)), ("select ?", None), ("select 1", (1, 2)), ("describe select 'x' as status", (1,)), ("select ? + ?", (1,))):
+        res = []
+        for c in (real, stub):
+            try:
+                c.execute(q, prm)
+                res.append(None)
+            except Exception as e:  # noqa: BLE001
+                res.append((type(e).__name__, str(e).split("\n")[0]))
+        if res[0] != res[1]:
+            ok3, d3 = False, f"{q} {prm}: duckdb {res[0]} stub {res[1]}"
+    out.append(("K1 prepared-statement parameter count errors: stub == real DuckDB", ok3, d3))
     real.close()
     # closed connection
     try:
